@@ -71,6 +71,14 @@ func c04Gen(c *vfCtx, emit func(c04Case)) {
 					emit(c04Case{API: "snap", Mode: mode, Entries: es, Extra: "tail"})
 					// the same file as an editor that trims the final newline would leave it
 					emit(c04Case{API: "snap", Mode: mode, Entries: es, Extra: "nofinalnl"})
+					// the same file with CR LF line ends (a checkout with eol=crlf); values holding a CR of their own are left out
+					cr := false
+					for _, e := range es {
+						cr = cr || strings.Contains(e.Old+e.New, "\r")
+					}
+					if !cr {
+						emit(c04Case{API: "snap", Mode: mode, Entries: es, Extra: "crlf"})
+					}
 				}
 			})
 		}
@@ -113,7 +121,8 @@ func c04Gen(c *vfCtx, emit func(c04Case)) {
 
 func c04Run(c *vfCtx, cs c04Case) {
 	vfParseNoFinalNL = cs.Extra == "nofinalnl"
-	defer func() { vfParseNoFinalNL = false }()
+	vfParseDropCR = cs.Extra == "crlf"
+	defer func() { vfParseNoFinalNL, vfParseDropCR = false, false }()
 	dir := c.newWorld()
 	call := func(v, upd string) vfCall { return vfCall{API: cs.API, Val: v, Upd: upd} }
 	standalone := cs.API == "ssnap" || cs.API == "sjson"
@@ -172,6 +181,12 @@ func c04Run(c *vfCtx, cs c04Case) {
 			p := filepath.Join(dir, "f.snap")
 			if b, err := os.ReadFile(p); err == nil {
 				os.WriteFile(p, bytes.TrimSuffix(b, []byte("\n")), 0o644)
+			}
+		}
+		if cs.Extra == "crlf" {
+			p := filepath.Join(dir, "f.snap")
+			if b, err := os.ReadFile(p); err == nil {
+				os.WriteFile(p, bytes.ReplaceAll(b, []byte("\n"), []byte("\r\n")), 0o644)
 			}
 		}
 	}
@@ -255,6 +270,11 @@ func c04Run(c *vfCtx, cs c04Case) {
 		pre, _ := vfParse(before["f.snap"].Data)
 		pos := 0
 		data := after["f.snap"].Data
+		if cs.Extra == "crlf" {
+			// a rewrite reads lines without their CR and writes LF: "verbatim" is meant modulo the line ends here (when nothing
+			// changes, the file must not be touched at all - checked below, byte for byte)
+			data = bytes.ReplaceAll(data, []byte("\r\n"), []byte("\n"))
+		}
 		if cs.Extra == "nofinalnl" && !bytes.HasSuffix(data, []byte("\n")) {
 			data = append(append([]byte{}, data...), '\n') // the last terminator has no newline after it in this file
 		}
